@@ -252,7 +252,7 @@ def cases(tier, seed):
             types = [t for t in types if cfg_[t].token_type not in (GlobalToken.POINT_3D, GlobalToken.SFLOATVAR, GlobalToken.CIRCLE_2D)]
         for a in types:
             for b in types:
-                out.append(Case("pair-%s-%02x-%02x" % (dn, a, b), "h_pair", dict(docname=dn, t1=a, t2=b), covers=["pair"], budget_s=300, opts=dict(max_paths=6000, max_violations=6),
+                out.append(Case("pair-%s-%02x-%02x" % (dn, a, b), "h_pair", dict(docname=dn, t1=a, t2=b), covers=["pair"], budget_s=(300 if tier == "quick" else 2400), opts=dict(max_paths=(6000 if tier == "quick" else 60000), max_violations=6),
                                 bounds="two tokens (one per value type) with symbolic canonical values"))
     multis = [(["LRRP_ImmediateLocationRequest_NCDT", "LRRP_ImmediateLocationReport_NCDT"], 0), (["LRRP_TriggeredLocationRequest", "LRRP_TriggeredLocationAnswer_NCDT"], 3),
               (["LRRP_ImmediateLocationReport", "LRRP_ImmediateLocationReport"], 0)]
